@@ -36,7 +36,7 @@ import time
 from harness import common, pool
 
 PID = "C15"
-TRANSLATORS = ["T-invfilters", "T-storedigest", "T-stateid", "T-pathslice", "T-probes"]
+TRANSLATORS = ["T-invfilters", "T-storedigest", "T-stateid", "T-pathslice", "T-probes", "T-solverlife"]
 
 # Genuine defects of halmos found by this check on the unchanged tree (see the final report).
 KNOWN = common.known_for("C15")  # entries live in /verif/known_findings.json
@@ -739,6 +739,7 @@ QUICK_CORPUS = {
     "branch-cond-related-hi", "branch-cond-forward-hi",
     "instances-tsel-second-hit", "instances-tsel-first-hit", "instances-tsel-holds",
     "probe-after-refuted-candidate", "probe-sibling-refuted-first", "probe-refuted-only",
+    "solver-ctx-siblings-lo", "solver-ctx-siblings-hi", "solver-ctx-gated-d2-hi",
 }
 
 
@@ -765,6 +766,9 @@ def gen_l3_cases(tier, r):
     # assertions inside targets: refuted candidates before / beside genuine failures of the same function
     for j in range(1 if tier == "quick" else 30):
         cases.append(B.gen_probe_case(r, j, max_depth=2 if tier == "quick" else 3))
+    # the invariant's own run on sibling frontier states that share a symbol (one solver context per state)
+    for j in range(2 if tier == "quick" else 40):
+        cases.append(B.gen_solverctx_case(r, j))
     return cases
 
 
